@@ -412,6 +412,9 @@ func newReportElementTotalCommand$2$1$1 returns (err)
   dyncall 1 report.reportElementCmd
   modifies *
   modifies ghost(cbLen, cbErr, cbNode, cbStop, cbRet, cbLineNo, cbLine, cbHeader, cbElems, cbNElems, scRd, scPos, privLo, evOf, accKey, accP, accN, accH, bufSink, bufSticky, sinkFailed, sinkPend, prLen, prSink, prArg, prArgs, csvLen, csvW, csvN, csvRow, tnodes, tdepth, tmax, tmapOf, jlen, tvLen, tv, tseg, tvSet, adLen, adName, adVal, adSep, adRoot, procLen, procTime, procSrc, lastOpen, cfgRd)
+  // the command is actually run (exactly this call) and its error is what the closure returns
+  ghost after dyncall 1 { let cmdErr := #ret }
+  ensures @runs-the-command [C17 C16] err == cmdErr
   ghost before dyncall 1 {
     assert @streams [C16] #arg0 == streams[0]
     assert @wiring [C16 C11 C07] #arg1.ParserConfig == o.ParserConfig && #arg1.ResolverConfig == o.ResolverConfig && #arg1.ReporterConfig == o.ReporterConfig && #arg1.Descending == CtxIsSet(c, "desc") && #arg1.ElementName == ArgsFirst(CtxArgs(c))
@@ -423,6 +426,9 @@ func newReportElementTotalCommand$2$1 returns (err)
   dyncall 1 report.withFileReaders
   modifies *
   modifies ghost(cbLen, cbErr, cbNode, cbStop, cbRet, cbLineNo, cbLine, cbHeader, cbElems, cbNElems, scRd, scPos, privLo, evOf, accKey, accP, accN, accH, bufSink, bufSticky, sinkFailed, sinkPend, prLen, prSink, prArg, prArgs, csvLen, csvW, csvN, csvRow, tnodes, tdepth, tmax, tmapOf, jlen, tvLen, tv, tseg, tvSet, adLen, adName, adVal, adSep, adRoot, procLen, procTime, procSrc, lastOpen, cfgRd)
+  // the command is actually run (exactly this call) and its error is what the closure returns
+  ghost after dyncall 1 { let cmdErr := #ret }
+  ensures @runs-the-command [C17 C16] err == cmdErr
   ghost before dyncall 1 {
     assert @files [C16] len(#arg0) == 1 && #arg0[0] == o.GlobalConfig.DbFileName
   }
@@ -433,6 +439,9 @@ func newReportUnresolvedCommand$1$1$1 returns (err)
   dyncall 1 report.reportUnresolvedCmd
   modifies *
   modifies ghost(cbLen, cbErr, cbNode, cbStop, cbRet, cbLineNo, cbLine, cbHeader, cbElems, cbNElems, scRd, scPos, privLo, evOf, accKey, accP, accN, accH, bufSink, bufSticky, sinkFailed, sinkPend, prLen, prSink, prArg, prArgs, csvLen, csvW, csvN, csvRow, tnodes, tdepth, tmax, tmapOf, jlen, tvLen, tv, tseg, tvSet, adLen, adName, adVal, adSep, adRoot, procLen, procTime, procSrc, lastOpen, cfgRd)
+  // the command is actually run (exactly this call) and its error is what the closure returns
+  ghost after dyncall 1 { let cmdErr := #ret }
+  ensures @runs-the-command [C17 C16] err == cmdErr
   ghost before dyncall 1 {
     assert @streams [C16] #arg0 == streams[1] && #arg1 == streams[0]
     assert @wiring [C16 C06 C11] #arg2.DateFormat == o.GlobalConfig.DateFormat && #arg2.ParserConfig == o.ParserConfig && #arg2.ResolverConfig == o.ResolverConfig && #arg2.ReporterConfig == o.ReporterConfig && #arg2.FilterConfig == o.FilterConfig
@@ -444,6 +453,9 @@ func newReportUnresolvedCommand$1$1 returns (err)
   dyncall 1 report.withFileReaders
   modifies *
   modifies ghost(cbLen, cbErr, cbNode, cbStop, cbRet, cbLineNo, cbLine, cbHeader, cbElems, cbNElems, scRd, scPos, privLo, evOf, accKey, accP, accN, accH, bufSink, bufSticky, sinkFailed, sinkPend, prLen, prSink, prArg, prArgs, csvLen, csvW, csvN, csvRow, tnodes, tdepth, tmax, tmapOf, jlen, tvLen, tv, tseg, tvSet, adLen, adName, adVal, adSep, adRoot, procLen, procTime, procSrc, lastOpen, cfgRd)
+  // the command is actually run (exactly this call) and its error is what the closure returns
+  ghost after dyncall 1 { let cmdErr := #ret }
+  ensures @runs-the-command [C17 C16] err == cmdErr
   ghost before dyncall 1 {
     assert @files [C16] len(#arg0) == 2 && #arg0[0] == o.GlobalConfig.DbFileName && #arg0[1] == o.GlobalConfig.LogFileName
   }
@@ -454,6 +466,9 @@ func newReportQuantityCommand$1$1$1 returns (err)
   dyncall 1 report.reportQuantityCmd
   modifies *
   modifies ghost(cbLen, cbErr, cbNode, cbStop, cbRet, cbLineNo, cbLine, cbHeader, cbElems, cbNElems, scRd, scPos, privLo, evOf, accKey, accP, accN, accH, bufSink, bufSticky, sinkFailed, sinkPend, prLen, prSink, prArg, prArgs, csvLen, csvW, csvN, csvRow, tnodes, tdepth, tmax, tmapOf, jlen, tvLen, tv, tseg, tvSet, adLen, adName, adVal, adSep, adRoot, procLen, procTime, procSrc, lastOpen, cfgRd)
+  // the command is actually run (exactly this call) and its error is what the closure returns
+  ghost after dyncall 1 { let cmdErr := #ret }
+  ensures @runs-the-command [C17 C16] err == cmdErr
   ghost before dyncall 1 {
     assert @streams [C16] #arg0 == streams[0]
     assert @wiring [C16 C06 C07] #arg1.DateFormat == o.GlobalConfig.DateFormat && #arg1.ParserConfig == o.ParserConfig && #arg1.ReporterConfig == o.ReporterConfig && #arg1.FilterConfig == o.FilterConfig && #arg1.Descending == CtxIsSet(c, "desc")
@@ -465,6 +480,9 @@ func newReportQuantityCommand$1$1 returns (err)
   dyncall 1 report.withFileReaders
   modifies *
   modifies ghost(cbLen, cbErr, cbNode, cbStop, cbRet, cbLineNo, cbLine, cbHeader, cbElems, cbNElems, scRd, scPos, privLo, evOf, accKey, accP, accN, accH, bufSink, bufSticky, sinkFailed, sinkPend, prLen, prSink, prArg, prArgs, csvLen, csvW, csvN, csvRow, tnodes, tdepth, tmax, tmapOf, jlen, tvLen, tv, tseg, tvSet, adLen, adName, adVal, adSep, adRoot, procLen, procTime, procSrc, lastOpen, cfgRd)
+  // the command is actually run (exactly this call) and its error is what the closure returns
+  ghost after dyncall 1 { let cmdErr := #ret }
+  ensures @runs-the-command [C17 C16] err == cmdErr
   ghost before dyncall 1 {
     assert @files [C16] len(#arg0) == 1 && #arg0[0] == o.GlobalConfig.LogFileName
   }
@@ -475,6 +493,9 @@ func NewReportTotalsCommand$1$1$1 returns (err)
   dyncall 1 report.reportTotalsCmd
   modifies *
   modifies ghost(cbLen, cbErr, cbNode, cbStop, cbRet, cbLineNo, cbLine, cbHeader, cbElems, cbNElems, scRd, scPos, privLo, evOf, accKey, accP, accN, accH, bufSink, bufSticky, sinkFailed, sinkPend, prLen, prSink, prArg, prArgs, csvLen, csvW, csvN, csvRow, tnodes, tdepth, tmax, tmapOf, jlen, tvLen, tv, tseg, tvSet, adLen, adName, adVal, adSep, adRoot, procLen, procTime, procSrc, lastOpen, cfgRd)
+  // the command is actually run (exactly this call) and its error is what the closure returns
+  ghost after dyncall 1 { let cmdErr := #ret }
+  ensures @runs-the-command [C17 C16] err == cmdErr
   ghost before dyncall 1 {
     assert @streams [C16] #arg0 == streams[1] && #arg1 == streams[0]
     assert @wiring [C16 C06 C11 C07] #arg2.DateFormat == o.GlobalConfig.DateFormat && #arg2.ParserConfig == o.ParserConfig && #arg2.ResolverConfig == o.ResolverConfig && #arg2.ReporterConfig == o.ReporterConfig && #arg2.FilterConfig == o.FilterConfig
@@ -486,6 +507,9 @@ func NewReportTotalsCommand$1$1 returns (err)
   dyncall 1 report.withFileReaders
   modifies *
   modifies ghost(cbLen, cbErr, cbNode, cbStop, cbRet, cbLineNo, cbLine, cbHeader, cbElems, cbNElems, scRd, scPos, privLo, evOf, accKey, accP, accN, accH, bufSink, bufSticky, sinkFailed, sinkPend, prLen, prSink, prArg, prArgs, csvLen, csvW, csvN, csvRow, tnodes, tdepth, tmax, tmapOf, jlen, tvLen, tv, tseg, tvSet, adLen, adName, adVal, adSep, adRoot, procLen, procTime, procSrc, lastOpen, cfgRd)
+  // the command is actually run (exactly this call) and its error is what the closure returns
+  ghost after dyncall 1 { let cmdErr := #ret }
+  ensures @runs-the-command [C17 C16] err == cmdErr
   ghost before dyncall 1 {
     assert @files [C16] len(#arg0) == 2 && #arg0[0] == o.GlobalConfig.DbFileName && #arg0[1] == o.GlobalConfig.LogFileName
   }
